@@ -375,6 +375,9 @@ struct world
     std::map<long, std::unique_ptr<canvas>> canvases;
     std::map<long, held_cell> held;
     std::map<long, terminalpp::string> strings;
+    // manipulator objects the application made once and streams again and again,
+    // to any of its terminals
+    std::map<long, std::function<void(terminal &)>> manips;
     std::map<long, std::pair<element *, terminalpp::string::iterator>> sheld;
     std::map<long, std::pair<long, std::unique_ptr<screen>>> screens;
     std::map<long, std::unique_ptr<detail::parser>> parsers;
@@ -391,6 +394,28 @@ void do_term(std::ostream &out, world &w, toks &t)
         return;
     }
     auto &to = *w.terms.at(id);
+    if (op == "use")
+    {
+        w.manips.at(t.num())(to.term);
+        flush_written(out, to);
+        pr_state(out, to);
+        return;
+    }
+    if (op == "forget")
+    {
+        // a manipulator of the application's own that has written bytes the library
+        // knows nothing about and therefore honestly marks a belief as unknown
+        long const k = t.num();
+        to.term << [k](behaviour const &, terminal_state &st, terminal::write_function const &) {
+            if (k == 0) st.last_element_ = {};
+            else if (k == 1) st.cursor_position_ = {};
+            else if (k == 2) st.saved_cursor_position_ = {};
+            else st.cursor_visible_ = {};
+        };
+        flush_written(out, to);
+        pr_state(out, to);
+        return;
+    }
     if (op == "sleep")
     {
         // time passes between two things the application does
@@ -537,8 +562,7 @@ void do_canvas(std::ostream &out, world &w, toks &t)
     {
         // copy assignment to an existing canvas (possibly from itself)
         auto &src = *w.canvases.at(t.num());
-        *w.canvases.at(id) = src;
-        w.held.erase(id);
+        *w.canvases.at(id) = src;     // (a column handle taken earlier still names that column)
         return;
     }
     if (op == "move")
@@ -880,6 +904,7 @@ void do_string(std::ostream &out, world &w, toks &t)
         w.strings[id] = std::move(moved);
     }
     else if (op == "appendelem") { w.strings.at(id) += mk_elem(t); }
+    else if (op == "appendown") { auto &s = w.strings.at(id); s += s[static_cast<tstr::size_type>(t.num())]; }
     else if (op == "append") { long o = t.num(); w.strings.at(id) += w.strings.at(o); }
     else if (op == "plus") { long a = t.num(), b = t.num(); w.strings[id] = w.strings.at(a) + w.strings.at(b); }
     else if (op == "pluselem") { long a = t.num(); w.strings[id] = w.strings.at(a) + mk_elem(t); }
@@ -932,7 +957,23 @@ void do_string(std::ostream &out, world &w, toks &t)
         if (viaidx != fwd) out << "ZX operator[] disagrees with iteration\n";
         if (viamut != fwd || viac != fwd) out << "ZX begin()/cbegin() disagree with const iteration\n";
         if (viarev != fwd || viamrev != fwd) out << "ZX reverse iteration disagrees with forward iteration\n";
-        if (!(cs == tstr(fwd.begin(), fwd.end()))) out << "ZX the string differs from a string built from its own elements\n";
+        tstr const rebuilt(fwd.begin(), fwd.end());
+        if (!(cs == rebuilt)) out << "ZX the string differs from a string built from its own elements\n";
+        if (std::hash<tstr>{}(cs) != std::hash<tstr>{}(rebuilt)) out << "ZX the string's hash differs from that of an equal string built from its elements\n";
+        if ((cs <=> rebuilt) != 0 || cs < rebuilt || rebuilt < cs) out << "ZX the string is ordered against an equal string\n";
+        // comparison with plain text (whatever overloads or conversions serve it)
+        bool plain = true;
+        std::string text;
+        for (auto const &e : fwd)
+        {
+            if (!(e == element(static_cast<char>(e.glyph_.character_))) || e.glyph_.character_ == 0) plain = false;
+            text.push_back(static_cast<char>(e.glyph_.character_));
+        }
+        if (plain)
+        {
+            bool const a = (cs == text.c_str()), b = (text.c_str() == cs), c = !(cs != text.c_str()), d = (cs == tstr(text.c_str()));
+            if (!(a && b && c && d)) out << "ZX a string of plain text is not equal to that text (" << a << b << c << d << ")\n";
+        }
     }
     else if (op == "mdump")
     {
@@ -985,6 +1026,37 @@ void run_line(std::ostream &out, world &w, std::string const &line)
     else if (k == "M") do_markup(out, t);
     else if (k == "V") do_value(out, t);
     else if (k == "Z") do_string(out, w, t);
+    else if (k == "O")
+    {
+        long const oid = t.num();
+        std::string const what = t.str();
+        if (what == "title")
+        {
+            auto const b = unhex(t.str());
+            auto m = std::make_shared<set_window_title>(std::string(b.begin(), b.end()));
+            w.manips[oid] = [m](terminal &tm) { tm << *m; };
+        }
+        else if (what == "move")
+        {
+            long x = t.num(), y = t.num();
+            auto m = std::make_shared<move_cursor>(point{coordinate_type(x), coordinate_type(y)});
+            w.manips[oid] = [m](terminal &tm) { tm << *m; };
+        }
+        else if (what == "raw")
+        {
+            auto m = std::make_shared<write_element>(mk_elem(t));
+            w.manips[oid] = [m](terminal &tm) { tm << *m; };
+        }
+        else if (what == "hide") { auto m = std::make_shared<hide_cursor>(); w.manips[oid] = [m](terminal &tm) { tm << *m; }; }
+        else if (what == "show") { auto m = std::make_shared<show_cursor>(); w.manips[oid] = [m](terminal &tm) { tm << *m; }; }
+        else if (what == "mouse")
+        {
+            if (t.num() != 0) { auto m = std::make_shared<enable_mouse>(); w.manips[oid] = [m](terminal &tm) { tm << *m; }; }
+            else { auto m = std::make_shared<disable_mouse>(); w.manips[oid] = [m](terminal &tm) { tm << *m; }; }
+        }
+        else if (what == "erase") { auto m = std::make_shared<erase_display>(); w.manips[oid] = [m](terminal &tm) { tm << *m; }; }
+        else out << "ERR unknown manipulator object\n";
+    }
     else if (k == "P") do_parser(out, w, t);
     else out << "ERR unknown line kind\n";
 }
